@@ -21,6 +21,8 @@ Adv == l' = l + 1 /\ TLCSet(1, l)
 
 ContentOK(st, ev) == ev.any \/ st.start \in Rng(ev.cand)
 
+Comp(st) == st.rd = "open" /\ fr[st.start].comp
+
 TReset ==
   /\ Is("Reset")
   /\ cfg' = Ev.cfg /\ fr' = Ev.fr
@@ -31,17 +33,20 @@ TReset ==
 TNR ==
   /\ Is("NR")
   /\ \E len \in BOOLEAN :
-     LET w == NRWalk(s, len) IN
+     LET w0 == NRWalk(s, len)
+         w == IF ~s.wild /\ Comp(s) THEN DropObs(w0, s.zobs) ELSE w0 IN
      /\ s.wild \/ NRAllowed(s, w, Ev.ok, Ev.type, Ev.err, Ev.obs)
      /\ s' = IF s.wild THEN s ELSE NRNext(s, w, Ev.err)
   /\ UNCHANGED << cfg, fr >> /\ Adv
 
-(* Partial reads of a COMPRESSED message are not modelled (the inflater     *)
-(* decouples delivered bytes from wire position): the trace goes "wild".   *)
 TRD ==
   /\ Is("RD")
   /\ s.wild \/ s.rd # "none"
-  /\ IF ~s.wild /\ s.rd = "open" /\ fr[s.start].comp THEN s' = [s EXCEPT !.wild = TRUE]
+  /\ IF ~s.wild /\ Comp(s) THEN
+        LET w == RALoop(s, << >>) IN
+        IF w.res = "wild" THEN s' = w.s
+        ELSE /\ RDZAllowed(s, w, Ev.k, Ev.n, Ev.err, Ev.obs) /\ ContentOK(s, Ev)
+             /\ s' = RDZNext(s, w, Ev.n, Ev.err, Ev.obs)
      ELSE
      LET w == IF s.rd = "open" THEN RDSeek(s, << >>) ELSE Out(s, << >>, "none", FALSE) IN
      /\ s.wild \/ (RDAllowed(s, w, Ev.k, Ev.n, Ev.err, Ev.obs) /\ ContentOK(s, Ev))
@@ -51,7 +56,8 @@ TRD ==
 TRA ==
   /\ Is("RA")
   /\ s.wild \/ s.rd # "none"
-  /\ LET w == IF s.rd = "open" THEN RALoop(s, << >>) ELSE Out(s, << >>, "none", FALSE) IN
+  /\ LET w0 == IF s.rd = "open" THEN RALoop(s, << >>) ELSE Out(s, << >>, "none", FALSE)
+         w == IF Comp(s) THEN DropObs(w0, s.zobs) ELSE w0 IN
      /\ s.wild \/ (RAAllowed(s, w, Ev.n, Ev.err, Ev.obs) /\ ContentOK(s, Ev))
      /\ s' = IF s.wild THEN s ELSE RANext(s, w, Ev.err)
   /\ UNCHANGED << cfg, fr >> /\ Adv
@@ -60,7 +66,8 @@ TRA ==
 TRM ==
   /\ Is("RM")
   /\ \E len \in BOOLEAN :
-     LET w1 == NRWalk(s, len) IN
+     LET w0 == NRWalk(s, len)
+         w1 == IF ~s.wild /\ Comp(s) THEN DropObs(w0, s.zobs) ELSE w0 IN
      IF s.wild THEN s' = s
      ELSE IF ~s.failed /\ w1.res = "wild" THEN s' = w1.s
      ELSE IF s.failed \/ w1.res # "data" THEN
